@@ -219,7 +219,14 @@ def _r3_threshold(rc: RuleCtx, m: rm.LoopModel):
         env[m.removed] = Vec([], "list")
     fr.block(m.post, env, TRUE)
     apps = [e for e in fr.events if e.kind == "append" and e.target == m.retained]
-    if len(apps) == 1 and apps[0].guard.kind == "true" and isinstance(apps[0].args[0], Rat) and apps[0].args[0].equals(sym("n") - C(1)):
+    # by value: with the retained list empty at the end of the loop, the returned index array is exactly [n - 1]
+    by_value = False
+    if len(fr.returns) == 1 and fr.returns[0][0].kind == "true":
+        rv_ = fr.returns[0][1]
+        first_ = rv_.items[0] if isinstance(rv_, Vec) and rv_.items else None
+        by_value = isinstance(first_, Vec) and first_.kind == "list" and len(first_.items) == 1 and isinstance(first_.items[0], Rat) \
+            and first_.items[0].equals(sym("n") - C(1))
+    if by_value or (len(apps) == 1 and apps[0].guard.kind == "true" and isinstance(apps[0].args[0], Rat) and apps[0].args[0].equals(sym("n") - C(1))):
         res.ok("R2", "rdp.rdp:last", "exactly one reduced.append(len(points) - 1) after the loop")
     else:
         res.violation("R2", fi.module, fi.name, fi.node, "the last index n-1 is not appended exactly once after the loop",
@@ -320,7 +327,17 @@ def _seeds(rc: RuleCtx):
                           construct="seed reduced")
         ok = True
         any_seed = False
+        # a list with one conditional element (<e if c>) is the same as {c -> [e]; not c -> []}
+        from ..seqdom import Gen as _Gen
+        stk_cases = []
         for g, v in cases_of(stk):
+            if isinstance(v, Vec) and len(v.items) == 1 and isinstance(v.items[0], _Gen) and not v.items[0].ranged and len(v.items[0].parts) == 1 \
+                    and not v.items[0].parts[0][2]:
+                gc_, e_, _sp = v.items[0].parts[0]
+                stk_cases += [(g_and(g, gc_), Vec([e_], "list")), (g_and(g, g_not(gc_)), Vec([], "list"))]
+            else:
+                stk_cases.append((g, v))
+        for g, v in stk_cases:
             if not isinstance(v, Vec):
                 ok = False
                 continue
